@@ -119,6 +119,12 @@ def cases(tier, seed):
     for pic in fgp:
         for x in [0.123456, 1.5, 12345.678912, 0.1, -3.14159265]:
             add('$formatNumber(%s, "%s")' % (x, pic), None, ('grouping', 'fraction'))
+    # pictures written in another digit family (zero-digit option): Arabic-Indic (2 bytes), Devanagari (3 bytes), mathematical bold (4 bytes)
+    for z in [chr(0x660), chr(0x966), chr(0x1d7ce)]:
+        for pic in ['0', '000', '00000', '#,##0', '0,000', '000.00', '#0.0#', '00.000e0', '0%', '#,###,##0.00', '00;(00)']:
+            zp = pic.replace('0', z)
+            for x in [0, 5, 12, 123, 1234, 12345.678, -7, 0.5, 1e6, 0.004]:
+                add('$formatNumber(%s, "%s", {"zero-digit": "%s"})' % (x, zp, z), None, ('digit-family',))
     # $formatNumber: valid pictures, mutated (invalid) pictures, options
     opts = ['', ', {"decimal-separator": ",", "grouping-separator": "."}', ', {"zero-digit": "٠"}', ', {"minus-sign": "−"}', ', {"percent": "pc", "per-mille": "pm"}', ', {"digit": "D", "pattern-separator": "|"}',
             ', {"exponent-separator": "x"}', ', {"infinity": "inf", "NaN": "nan"}', ', {"decimal-separator": "ab"}', ', {"unknown": "x"}', ', {"zero-digit": 5}', ', 5', ', {"decimal-separator": ""}']
